@@ -1,6 +1,535 @@
-(* C13 — stub: model not yet built (the property is listed under not_applicable until it is). *)
-From Coq Require Import List ZArith Bool.
+(* C13 -- zap's writers and WriteSyncer combinators honour the io.Writer contract.
+
+   Models (following the Go text of /repo):
+     A. zapcore/write_syncer.go: AddSync, Lock, lockedWriteSyncer, writerWrapper,
+        NewMultiWriteSyncer, multiWriteSyncer.Write/Sync; writer.go: CombineWriteSyncers.
+        [version Orig] is the count fold as it was before the fix ("nWritten == 0 && n != 0");
+        [version Fixed] is the repaired fold (start from len(p), keep the minimum).
+     B. global.go: loggerWriter.Write (Orig: returns the length of the TRIMMED text;
+        Fixed: n := len(p) before trimming); zaptest/logger.go: TestingWriter.Write;
+        zapio/writer.go: Writer.Write (imported from C17.Model);
+        zapcore/buffered_write_syncer.go: Write/Sync/Stop over an accepting sink
+        (small model; the full one belongs to C12).
+     C. The interleaving model of lockedWriteSyncer (Lock; wrapped call; Unlock) re-homed
+        from DESIGN Appendix B, with the in-flight counter the harness sink keeps.
+   No proofs in this file. *)
+From Coq Require Import List ZArith Bool Lia.
+From Coq.Strings Require Import Byte.
 Import ListNotations.
 From Zap Require Import Base.Wire.
-Definition model (i : sx) : sx := SL [].
-Definition spec (i o : sx) : bool := false.
+From Zap Require C17.Model.
+Local Open Scope Z_scope.
+
+(* len(p) as a Z (tail recursive: payloads of several 100 kB go through the extracted code) *)
+Fixpoint zlen_acc (l : bytes) (a : Z) : Z := match l with [] => a | _ :: r => zlen_acc r (a + 1) end.
+Definition zlen (l : bytes) : Z := zlen_acc l 0.
+Definition is_nil {A} (l : list A) : bool := match l with [] => true | _ => false end.
+(* linear-time reverse (List.rev is quadratic) *)
+Definition frev {A} (l : list A) : list A := rev_append l [].
+
+(* ================= A. WriteSyncer combinators ================= *)
+
+(* An error value is the flattened list of its atomic errors (go.uber.org/multierr):
+   [] is nil, multierr.Append is list append. *)
+Definition errs := list Z.
+Definition err_append (a b : errs) : errs := a ++ b.
+
+(* The objects of write_syncer.go.  A [Leaf] is a user sink: [hs] tells whether its
+   concrete type has a Sync method; [n], [we] are what its Write returns on this call,
+   [se] what its Sync returns.  [Discard] is io.Discard (no Sync method). *)
+Inductive ws :=
+| Leaf (id : Z) (hs : bool) (n : Z) (we se : errs)
+| Discard
+| Wrapper (w : ws)                      (* writerWrapper{w} *)
+| Locked (w : ws)                       (* &lockedWriteSyncer{ws: w} *)
+| Multi (l : list ws).                  (* multiWriteSyncer(l) *)
+
+Inductive event := ELock | EUnlock | EWrite (id : Z) (p : bytes) | ESync (id : Z).
+
+Inductive version := Orig | Fixed.
+
+(* multiWriteSyncer.Write, the count fold.
+   Orig:   nWritten := 0;  if nWritten == 0 && n != 0 { nWritten = n } else if n < nWritten { nWritten = n }
+   Fixed:  nWritten := len(p);  if n < nWritten { nWritten = n } *)
+Definition count_init (v : version) (p : bytes) : Z :=
+  match v with Orig => 0 | Fixed => zlen p end.
+Definition count_step (v : version) (nW n : Z) : Z :=
+  match v with
+  | Orig => if (nW =? 0) && negb (n =? 0) then n else if n <? nW then n else nW
+  | Fixed => if n <? nW then n else nW
+  end.
+
+Definition wres := (Z * errs * list event)%type.
+Definition sres := (errs * list event)%type.
+
+(* for _, w := range ws { n, err := w.Write(p); writeErr = multierr.Append(writeErr, err); ... } *)
+Definition multi_write_loop (call : ws -> wres) (v : version) : list ws -> Z -> errs -> list event -> wres :=
+  fix go (l : list ws) (nW : Z) (e : errs) (ev : list event) : wres :=
+    match l with
+    | [] => (nW, e, ev)
+    | w :: r => let '(n, err, ev') := call w in
+                go r (count_step v nW n) (err_append e err) (ev ++ ev')
+    end.
+(* for _, w := range ws { err = multierr.Append(err, w.Sync()) } *)
+Definition multi_sync_loop (call : ws -> sres) : list ws -> errs -> list event -> sres :=
+  fix go (l : list ws) (e : errs) (ev : list event) : sres :=
+    match l with
+    | [] => (e, ev)
+    | w :: r => let '(err, ev') := call w in go r (err_append e err) (ev ++ ev')
+    end.
+
+Fixpoint write (v : version) (w : ws) (p : bytes) {struct w} : wres :=
+  match w with
+  | Leaf id _ n we _ => (n, we, [EWrite id p])
+  | Discard => (zlen p, [], [])
+  | Wrapper w' => write v w' p                                   (* embedded io.Writer *)
+  | Locked w' => let '(n, e, ev) := write v w' p in              (* s.Lock(); n, err := s.ws.Write(bs); s.Unlock() *)
+                 (n, e, ELock :: ev ++ [EUnlock])
+  | Multi l => multi_write_loop (fun w' => write v w' p) v l (count_init v p) [] []
+  end.
+
+Fixpoint sync (w : ws) {struct w} : sres :=
+  match w with
+  | Leaf id hs _ _ se => if hs then (se, [ESync id]) else ([], [])   (* hs = false: no Sync method (ill-typed call) *)
+  | Discard => ([], [])                                                (* no Sync method (ill-typed call) *)
+  | Wrapper _ => ([], [])                                              (* func (w writerWrapper) Sync() error { return nil } *)
+  | Locked w' => let '(e, ev) := sync w' in (e, ELock :: ev ++ [EUnlock])
+  | Multi l => multi_sync_loop (fun w' => sync w') l [] []
+  end.
+
+(* the code before / after the fix, by name *)
+Definition write_orig : ws -> bytes -> wres := write Orig.
+Definition write_fixed : ws -> bytes -> wres := write Fixed.
+
+(* Go's static typing of the objects: a WriteSyncer-typed field holds something with a Sync method *)
+Definition is_syncer (w : ws) : bool :=
+  match w with Leaf _ hs _ _ _ => hs | Discard => false | _ => true end.
+Fixpoint well_typed (w : ws) : bool :=
+  match w with
+  | Leaf _ _ _ _ _ => true
+  | Discard => true
+  | Wrapper w' => well_typed w'
+  | Locked w' => is_syncer w' && well_typed w'
+  | Multi l => forallb (fun x => is_syncer x && well_typed x) l
+  end.
+
+(* the constructor functions *)
+Definition add_sync (w : ws) : ws := if is_syncer w then w else Wrapper w.       (* type switch on WriteSyncer *)
+Definition lock (w : ws) : ws := match w with Locked _ => w | _ => Locked w end.  (* no need to layer on another lock *)
+Definition new_multi (l : list ws) : ws := match l with [w] => w | _ => Multi l end.
+Definition combine (l : list ws) : ws :=                                          (* zap.CombineWriteSyncers *)
+  match l with [] => add_sync Discard | _ => lock (new_multi l) end.
+
+(* what the recording sinks observe: each sink call with the number of zap mutexes held around it *)
+Definition obs_w (id : Z) (p : bytes) (d : Z) : sx := SL [SZ id; SB p; SZ d].
+Definition obs_s (id : Z) (d : Z) : sx := SL [SZ id; SZ d].
+Fixpoint observe (d : Z) (ev : list event) : list sx :=
+  match ev with
+  | [] => []
+  | ELock :: r => observe (d + 1) r
+  | EUnlock :: r => observe (d - 1) r
+  | EWrite id p :: r => obs_w id p d :: observe d r
+  | ESync id :: r => obs_s id d :: observe d r
+  end.
+
+(* construction programs: how a test (or zap itself) builds a WriteSyncer out of sinks *)
+Inductive expr :=
+| XLeaf (id : Z) (hs : bool) (n : Z) (we se : errs)
+| XDiscard
+| XAddSync (e : expr)
+| XLock (e : expr)
+| XNewMulti (es : list expr)
+| XCombine (es : list expr).
+
+Fixpoint eval (e : expr) : ws :=
+  match e with
+  | XLeaf id hs n we se => Leaf id hs n we se
+  | XDiscard => Discard
+  | XAddSync e' => add_sync (eval e')
+  | XLock e' => lock (eval e')
+  | XNewMulti es => new_multi (map eval es)
+  | XCombine es => combine (map eval es)
+  end.
+
+(* flat multi-syncers: the quantifier of the property ("every number and order of sinks,
+   every per-sink outcome vector") *)
+Record sink := { s_id : Z; s_n : Z; s_we : errs; s_se : errs }.
+Definition leaf_of (s : sink) : ws := Leaf (s_id s) true (s_n s) (s_we s) (s_se s).
+Definition multi_of (l : list sink) : ws := new_multi (map leaf_of l).
+
+(* ---------- specification (independent of [ws], [write], [sync]) ---------- *)
+
+(* "the smallest count any sink reported" (all of p when there is no sink) *)
+Definition smallest (lenp : Z) (counts : list Z) : Z :=
+  match counts with [] => lenp | c :: r => fold_left Z.min r c end.
+
+(* static typing of a construction program *)
+Definition x_syncer (e : expr) : bool :=
+  match e with XLeaf _ hs _ _ _ => hs | XDiscard => false | _ => true end.
+Fixpoint x_typed (e : expr) : bool :=
+  match e with
+  | XLeaf _ _ _ _ _ => true
+  | XDiscard => true
+  | XAddSync e' => x_typed e'
+  | XLock e' => x_syncer e' && x_typed e'
+  | XNewMulti es => forallb (fun x => x_syncer x && x_typed x) es
+  | XCombine es => forallb (fun x => x_syncer x && x_typed x) es
+  end.
+(* every sink outcome is a legal io.Writer answer: 0 <= n <= len p *)
+Fixpoint x_dom (lenp : Z) (e : expr) : bool :=
+  match e with
+  | XLeaf _ _ n _ _ => (0 <=? n) && (n <=? lenp)
+  | XDiscard => true
+  | XAddSync e' => x_dom lenp e'
+  | XLock e' => x_dom lenp e'
+  | XNewMulti es => forallb (x_dom lenp) es
+  | XCombine es => forallb (x_dom lenp) es
+  end.
+
+(* the program denotes an already locked syncer (so Lock must return it unchanged) *)
+Fixpoint x_locked (e : expr) : bool :=
+  match e with
+  | XLock _ => true
+  | XAddSync e' => x_locked e'
+  | XNewMulti [e'] => x_locked e'
+  | XCombine (_ :: _) => true
+  | _ => false
+  end.
+
+Definition rres := (Z * errs * list sx)%type.
+Definition ref_multi (lenp : Z) (rs : list rres) : rres :=
+  (smallest lenp (map (fun r => fst (fst r)) rs),
+   concat (map (fun r => snd (fst r)) rs),
+   concat (map (fun r => snd r) rs)).
+Definition ref_multi_s (rs : list (errs * list sx)) : errs * list sx :=
+  (concat (map fst rs), concat (map snd rs)).
+
+(* reference semantics of a Write through the constructed object, under [d] zap mutexes:
+   AddSync and Lock relay; Lock adds exactly one mutex unless its argument is already locked;
+   a multi-syncer hands p to every sink, returns the smallest count and all errors in order *)
+Fixpoint ref_write (e : expr) (p : bytes) (d : Z) {struct e} : rres :=
+  match e with
+  | XLeaf id _ n we _ => (n, we, [obs_w id p d])
+  | XDiscard => (zlen p, [], [])
+  | XAddSync e' => ref_write e' p d
+  | XLock e' => ref_write e' p (if x_locked e' then d else d + 1)
+  | XNewMulti es => ref_multi (zlen p) (map (fun x => ref_write x p d) es)
+  | XCombine es =>
+      match es with
+      | [] => (zlen p, [], [])
+      | _ => let d' := if x_locked (XNewMulti es) then d else d + 1 in
+             ref_multi (zlen p) (map (fun x => ref_write x p d') es)
+      end
+  end.
+(* Sync: reaches every sink that has a Sync method (a no-op is added otherwise), all errors in order *)
+Fixpoint ref_sync (e : expr) (d : Z) {struct e} : errs * list sx :=
+  match e with
+  | XLeaf id hs _ _ se => if hs then (se, [obs_s id d]) else ([], [])
+  | XDiscard => ([], [])
+  | XAddSync e' => ref_sync e' d
+  | XLock e' => ref_sync e' (if x_locked e' then d else d + 1)
+  | XNewMulti es => ref_multi_s (map (fun x => ref_sync x d) es)
+  | XCombine es =>
+      match es with
+      | [] => ([], [])
+      | _ => let d' := if x_locked (XNewMulti es) then d else d + 1 in
+             ref_multi_s (map (fun x => ref_sync x d') es)
+      end
+  end.
+
+(* ================= B. the writers zap implements ================= *)
+
+Definition nl : byte := x0a.
+
+(* bytes.TrimSpace on ASCII input: strips \t \n \v \f \r and space at both ends.
+   For input containing bytes >= 0x80 (Unicode white space, invalid UTF-8) the
+   standard library's answer travels in the case (oracle). *)
+Definition ascii_space (b : byte) : bool :=
+  match b with x09 | x0a | x0b | x0c | x0d | x20 => true | _ => false end.
+Fixpoint drop_space (p : bytes) : bytes :=
+  match p with [] => [] | b :: r => if ascii_space b then drop_space r else p end.
+Definition ascii_trim (p : bytes) : bytes := frev (drop_space (frev (drop_space p))).
+Definition is_ascii (b : byte) : bool := Z_of_byte b <? 128.
+Definition all_ascii (p : bytes) : bool := forallb is_ascii p.
+Definition trim_space (p oracle : bytes) : bytes := if all_ascii p then ascii_trim p else oracle.
+
+(* loggerWriter.Write:  p = bytes.TrimSpace(p); l.logFunc(string(p)); return len(p), nil
+   (Orig: len of the trimmed p;  Fixed: n := len(p) taken before the trim).
+   [en]: the logger's core enables the level, i.e. the message reaches the core. *)
+Definition stdlog_write (v : version) (en : bool) (p oracle : bytes) : Z * Z * list bytes :=
+  let t := trim_space p oracle in
+  (match v with Orig => zlen t | Fixed => zlen p end, 0, if en then [t] else []).
+
+Definition stdlog_write_orig : bool -> bytes -> bytes -> Z * Z * list bytes := stdlog_write Orig.
+
+(* TestingWriter.Write:  n = len(p); p = bytes.TrimRight(p, "\n"); w.t.Logf("%s", p);
+   if w.markFailed { w.t.Fail() }; return n, nil *)
+Fixpoint drop_nl (p : bytes) : bytes :=
+  match p with [] => [] | b :: r => if Byte.eqb b nl then drop_nl r else p end.
+Definition trim_right_nl (p : bytes) : bytes := frev (drop_nl (frev p)).
+Definition testing_write (mf : bool) (p : bytes) : Z * Z * list bytes * bool :=
+  (zlen p, 0, [trim_right_nl p], mf).
+
+(* zapio.Writer: the C17 model; one writer, a sequence of Write calls *)
+Definition zapio_writes (en : bool) (ps : list bytes) : list Z :=
+  map Z.of_nat (C17.Model.returns en (map C17.Model.W ps)).
+
+(* BufferedWriteSyncer over a sink that accepts every write (returns len, nil) and whose
+   Sync succeeds; the ticker never fires. *)
+Inductive sev := SW (b : bytes) | SS.
+Inductive bop := BW (p : bytes) | BSync | BStop.
+Record bws := { b_init : bool; b_stopped : bool; b_buf : bytes }.
+Definition bws0 : bws := {| b_init := false; b_stopped := false; b_buf := [] |}.
+
+(* initialize(): size 0 -> _defaultBufferSize;  bufio.NewWriterSize: size <= 0 -> 4096 *)
+Definition eff_size (size : Z) : Z :=
+  let s := if size =? 0 then 262144 else size in if s <=? 0 then 4096 else s.
+
+(* bufio.Writer.Flush: nothing when b.n == 0, else one Write of the buffered bytes *)
+Definition bufio_flush (buf : bytes) : bytes * list sev :=
+  if is_nil buf then ([], []) else ([], [SW buf]).
+
+(* bufio.Writer.Write:
+     for len(p) > b.Available() && b.err == nil {
+       if b.Buffered() == 0 { n, b.err = b.wr.Write(p) }           -- large write, empty buffer
+       else { n = copy(b.buf[b.n:], p); b.n += n; b.Flush() }
+       nn += n; p = p[n:] }
+     n := copy(b.buf[b.n:], p); b.n += n; nn += n; return nn, nil
+   With an accepting sink the loop runs at most twice; fuel exhaustion returns the
+   (short) count accumulated so far. *)
+Fixpoint bufio_write (fuel : nat) (size : Z) (buf p : bytes) (nn : Z) (ev : list sev) : bytes * Z * list sev :=
+  match fuel with
+  | O => (buf, nn, ev)
+  | S f =>
+      if zlen p >? size - zlen buf then
+        if is_nil buf then bufio_write f size buf [] (nn + zlen p) (ev ++ [SW p])
+        else let k := Z.to_nat (size - zlen buf) in
+             bufio_write f size [] (skipn k p) (nn + zlen (firstn k p)) (ev ++ [SW (buf ++ firstn k p)])
+      else (buf ++ p, nn + zlen p, ev)
+  end.
+
+(* BufferedWriteSyncer.Write: flush first when bs does not fit and the buffer is not empty *)
+Definition bws_write (size : Z) (s : bws) (p : bytes) : bws * Z * list sev :=
+  let buf := b_buf s in
+  let '(buf1, ev1) := if (zlen p >? size - zlen buf) && (zlen buf >? 0) then bufio_flush buf else (buf, []) in
+  let '(buf2, nn, ev2) := bufio_write 3 size buf1 p 0 [] in
+  ({| b_init := true; b_stopped := b_stopped s; b_buf := buf2 |}, nn, ev1 ++ ev2).
+(* Sync: if s.initialized { err = s.writer.Flush() }; multierr.Append(err, s.WS.Sync()) *)
+Definition bws_sync (s : bws) : bws * list sev :=
+  let '(buf1, ev1) := if b_init s then bufio_flush (b_buf s) else (b_buf s, []) in
+  ({| b_init := b_init s; b_stopped := b_stopped s; b_buf := buf1 |}, ev1 ++ [SS]).
+(* Stop: nothing unless initialized and not yet stopped; then a final Sync *)
+Definition bws_stop (s : bws) : bws * list sev :=
+  if b_init s && negb (b_stopped s) then
+    bws_sync {| b_init := b_init s; b_stopped := true; b_buf := b_buf s |}
+  else (s, []).
+
+(* a history: returned counts of the Writes, and what the sink saw *)
+Fixpoint bws_run (size : Z) (s : bws) (ops : list bop) : list Z * list sev :=
+  match ops with
+  | [] => ([], [])
+  | BW p :: r => let '(s1, n, ev) := bws_write size s p in
+                 let '(ns, ev') := bws_run size s1 r in (n :: ns, ev ++ ev')
+  | BSync :: r => let '(s1, ev) := bws_sync s in
+                  let '(ns, ev') := bws_run size s1 r in (ns, ev ++ ev')
+  | BStop :: r => let '(s1, ev) := bws_stop s in
+                  let '(ns, ev') := bws_run size s1 r in (ns, ev ++ ev')
+  end.
+
+(* ================= C. Lock: interleaving model (DESIGN Appendix B, re-homed) ================= *)
+Local Open Scope nat_scope.
+
+(* A thread using a locked syncer executes, per call (k = 0 Write, 1 Sync):
+   s.Lock(); <wrapped call begins>; <wrapped call ends>; s.Unlock() *)
+Inductive instr := ILock | IUnlock | IBegin (k : Z) | IEnd (k : Z).
+Definition call_code (k : Z) : list instr := [ILock; IBegin k; IEnd k; IUnlock].
+Definition compile (ops : list Z) : list instr := concat (map call_code ops).
+(* the same calls on the unwrapped sink *)
+Definition call_code_unlocked (k : Z) : list instr := [IBegin k; IEnd k].
+Definition compile_unlocked (ops : list Z) : list instr := concat (map call_code_unlocked ops).
+
+(* [cur]/[maxc]/[fin] are the counters the harness sink keeps: calls in flight,
+   their maximum, completed calls *)
+Record mstate := { pcs : nat -> nat; holder : option nat; cur : nat; maxc : nat; fin : nat }.
+Definition upd (m : nat -> nat) (t v : nat) : nat -> nat := fun x => if x =? t then v else m x.
+
+Definition next (codes : nat -> list instr) (s : mstate) (t : nat) : option instr :=
+  nth_error (codes t) (pcs s t).
+Definition adv (s : mstate) (t : nat) : nat -> nat := upd (pcs s) t (S (pcs s t)).
+Definition step (codes : nat -> list instr) (s : mstate) (t : nat) : mstate :=
+  match next codes s t with
+  | Some ILock =>
+      match holder s with
+      | None => {| pcs := adv s t; holder := Some t; cur := cur s; maxc := maxc s; fin := fin s |}
+      | Some _ => s                                            (* blocked: the turn is a no-op *)
+      end
+  | Some IUnlock => {| pcs := adv s t; holder := None; cur := cur s; maxc := maxc s; fin := fin s |}
+  | Some (IBegin _) => {| pcs := adv s t; holder := holder s; cur := S (cur s);
+                          maxc := Nat.max (maxc s) (S (cur s)); fin := fin s |}
+  | Some (IEnd _) => {| pcs := adv s t; holder := holder s; cur := pred (cur s); maxc := maxc s; fin := S (fin s) |}
+  | None => s
+  end.
+Definition minit : mstate := {| pcs := fun _ => 0; holder := None; cur := 0; maxc := 0; fin := 0 |}.
+Definition run (codes : nat -> list instr) (sched : list nat) : mstate := fold_left (step codes) sched minit.
+
+(* two different threads inside the wrapped call at the same time *)
+Definition in_call (codes : nat -> list instr) (s : mstate) (t : nat) : Prop :=
+  exists k, next codes s t = Some (IEnd k).
+Definition overlap (codes : nat -> list instr) (s : mstate) : Prop :=
+  exists t1 t2, t1 <> t2 /\ in_call codes s t1 /\ in_call codes s t2.
+
+(* programs: thread t performs the calls [nth t prog []] through Lock(sink) *)
+Definition locked_prog (prog : list (list Z)) : nat -> list instr := fun t => compile (nth t prog []).
+Definition unlocked_prog (prog : list (list Z)) : nat -> list instr := fun t => compile_unlocked (nth t prog []).
+Definition total_calls (prog : list (list Z)) : nat := fold_right (fun l a => length l + a) 0 prog.
+
+Local Open Scope Z_scope.
+
+(* ================= wire ================= *)
+(* case kinds
+   (1 <expr> #p)                      combinators; obs (n (werr..) ((id #p depth)..) (serr..) ((id depth)..))
+        expr = (0 id hs n (we..) (se..)) | (1) | (2 e) | (3 e) | (4 (e..)) | (5 (e..))
+   (2 0 en #p #trimspace-oracle)      std-log bridge;   obs (n err (msg..))
+   (2 1 markFailed #p)                TestingWriter;    obs (n err (log..) failed)
+   (2 2 en (#p ..))                   zapio.Writer;     obs ((n..) (err..))
+   (2 3 size (op..))                  BufferedWriteSyncer, op = (0 #p) | (1) Sync | (2) Stop;
+                                      obs ((n..) (err..) (sink-event..)), sink-event = #bytes | 0 (Sync)
+   (3 ((k..)..) (tid..))              goroutines hammering Lock(sink); obs (max-in-flight completed) *)
+Definition dec_zs (s : sx) : list Z := map sx_z (sx_l s).
+
+Fixpoint dec_expr (s : sx) : expr :=
+  match s with
+  | SL (SZ 0 :: id :: hs :: n :: we :: se :: nil) => XLeaf (sx_z id) (sx_bool hs) (sx_z n) (dec_zs we) (dec_zs se)
+  | SL (SZ 2 :: e :: nil) => XAddSync (dec_expr e)
+  | SL (SZ 3 :: e :: nil) => XLock (dec_expr e)
+  | SL (SZ 4 :: SL es :: nil) => XNewMulti (map dec_expr es)
+  | SL (SZ 5 :: SL es :: nil) => XCombine (map dec_expr es)
+  | _ => XDiscard
+  end.
+
+Definition dec_bop (s : sx) : bop :=
+  match sx_z (sx_nth s 0) with
+  | 0 => BW (sx_b (sx_nth s 1))
+  | 1 => BSync
+  | _ => BStop
+  end.
+Definition enc_sev (e : sev) : sx := match e with SW b => SB b | SS => SZ 0 end.
+Definition dec_prog (s : sx) : list (list Z) := map dec_zs (sx_l s).
+Definition dec_sched (s : sx) : list nat := map sx_n (sx_l s).
+
+Definition model_comb (e : expr) (p : bytes) : sx :=
+  let w := eval e in
+  let '(n, we, ev) := write Fixed w p in
+  let '(se, ev') := sync w in
+  SL [SZ n; of_zlist we; SL (observe 0 ev); of_zlist se; SL (observe 0 ev')].
+
+Definition kind (i : sx) : Z := sx_z (sx_nth i 0).
+Definition wkind (i : sx) : Z := sx_z (sx_nth i 1).
+
+Definition model_stdlog (i : sx) : sx :=
+  let '(n, e, ms) := stdlog_write Fixed (sx_bool (sx_nth i 2)) (sx_b (sx_nth i 3)) (sx_b (sx_nth i 4)) in
+  SL [SZ n; SZ e; of_blist ms].
+Definition model_testing (i : sx) : sx :=
+  let '(n, e, ls, f) := testing_write (sx_bool (sx_nth i 2)) (sx_b (sx_nth i 3)) in
+  SL [SZ n; SZ e; of_blist ls; of_bool f].
+Definition model_zapio (i : sx) : sx :=
+  let ps := map sx_b (sx_l (sx_nth i 3)) in
+  SL [of_zlist (zapio_writes (sx_bool (sx_nth i 2)) ps); of_zlist (map (fun _ => 0) ps)].
+Definition model_bws (i : sx) : sx :=
+  let '(ns, ev) := bws_run (eff_size (sx_z (sx_nth i 2))) bws0 (map dec_bop (sx_l (sx_nth i 3))) in
+  SL [of_zlist ns; of_zlist (map (fun _ => 0) ns); SL (map enc_sev ev)].
+Definition model_lock (i : sx) : sx :=
+  let s := run (locked_prog (dec_prog (sx_nth i 1))) (dec_sched (sx_nth i 2)) in
+  SL [of_nat (maxc s); of_nat (fin s)].
+
+Definition model (i : sx) : sx :=
+  if kind i =? 1 then model_comb (dec_expr (sx_nth i 1)) (sx_b (sx_nth i 2))
+  else if kind i =? 2 then
+    (if wkind i =? 0 then model_stdlog i
+     else if wkind i =? 1 then model_testing i
+     else if wkind i =? 2 then model_zapio i
+     else model_bws i)
+  else model_lock i.
+
+(* ---------- the oracle ---------- *)
+Definition spec_comb (e : expr) (p : bytes) (o : sx) : bool :=
+  let '(n, we, evw) := ref_write e p 0 in
+  let '(se, evs) := ref_sync e 0 in
+  sx_eqb o (SL [SZ n; of_zlist we; SL evw; of_zlist se; SL evs]).
+
+(* [l] is [p] without its trailing newlines *)
+Fixpoint all_nl (p : bytes) : bool := match p with [] => true | b :: r => Byte.eqb b nl && all_nl r end.
+Definition ends_nl (l : bytes) : bool := match frev l with b :: _ => Byte.eqb b nl | [] => false end.
+Fixpoint strip_ok (l p : bytes) : bool :=
+  match l, p with
+  | [], _ => all_nl p
+  | a :: l', b :: p' => Byte.eqb a b && strip_ok l' p'
+  | _ :: _, [] => false
+  end.
+Definition stripped (l p : bytes) : bool := strip_ok l p && negb (ends_nl l).
+
+Definition bop_lens (ops : list bop) : list Z :=
+  concat (map (fun o => match o with BW p => [zlen p] | _ => [] end) ops).
+Definition bop_bytes (ops : list bop) : bytes :=
+  concat (map (fun o => match o with BW p => p | _ => [] end) ops).
+Fixpoint is_prefix (a b : bytes) : bool :=
+  match a, b with
+  | [], _ => true
+  | x :: a', y :: b' => Byte.eqb x y && is_prefix a' b'
+  | _ :: _, [] => false
+  end.
+Definition sink_bytes (o : sx) : bytes := concat (map sx_b (sx_l o)).
+Definition all_zero (o : sx) : bool := forallb (fun x => sx_eqb x (SZ 0)) (sx_l o).
+
+(* full count, nil error, the trimmed text logged iff enabled *)
+Definition spec_stdlog (i o : sx) : bool :=
+  let p := sx_b (sx_nth i 3) in
+  sx_eqb o (SL [SZ (zlen p); SZ 0; of_blist (if sx_bool (sx_nth i 2) then [sx_b (sx_nth i 4)] else [])]).
+Definition spec_testing (i o : sx) : bool :=
+  let p := sx_b (sx_nth i 3) in
+  sx_eqb (sx_nth o 0) (SZ (zlen p)) && sx_eqb (sx_nth o 1) (SZ 0) &&
+  match sx_l (sx_nth o 2) with [SB l] => stripped l p | _ => false end &&
+  sx_eqb (sx_nth o 3) (of_bool (sx_bool (sx_nth i 2))) &&
+  (length (sx_l o) =? 4)%nat.
+Definition spec_zapio (i o : sx) : bool :=
+  let ps := map sx_b (sx_l (sx_nth i 3)) in
+  sx_eqb o (SL [of_zlist (map zlen ps); of_zlist (map (fun _ => 0) ps)]).
+Definition spec_bws (i o : sx) : bool :=
+  let ops := map dec_bop (sx_l (sx_nth i 3)) in
+  sx_eqb (sx_nth o 0) (of_zlist (bop_lens ops)) &&
+  sx_eqb (sx_nth o 1) (of_zlist (map (fun _ => 0) (bop_lens ops))) &&
+  is_prefix (sink_bytes (sx_nth o 2)) (bop_bytes ops).
+(* never two wrapped calls in flight; every call completed *)
+Definition spec_lock (i o : sx) : bool :=
+  (sx_z (sx_nth o 0) <=? 1) && (0 <=? sx_z (sx_nth o 0)) &&
+  sx_eqb (sx_nth o 1) (of_nat (total_calls (dec_prog (sx_nth i 1)))).
+
+Definition spec (i o : sx) : bool :=
+  if kind i =? 1 then spec_comb (dec_expr (sx_nth i 1)) (sx_b (sx_nth i 2)) o
+  else if kind i =? 2 then
+    (if wkind i =? 0 then spec_stdlog i o
+     else if wkind i =? 1 then spec_testing i o
+     else if wkind i =? 2 then spec_zapio i o
+     else spec_bws i o)
+  else spec_lock i o.
+
+(* ---------- validity of a case (what the generators guarantee) ---------- *)
+Definition wf_comb (i : sx) : bool :=
+  let e := dec_expr (sx_nth i 1) in
+  x_syncer e && x_typed e && x_dom (zlen (sx_b (sx_nth i 2))) e.
+(* the TrimSpace oracle agrees with the ASCII model on ASCII payloads *)
+Definition wf_stdlog (i : sx) : bool :=
+  let p := sx_b (sx_nth i 3) in
+  if all_ascii p then bytes_eqb (sx_b (sx_nth i 4)) (ascii_trim p) else true.
+(* the schedule runs the program to completion *)
+Definition wf_lock (i : sx) : bool :=
+  (fin (run (locked_prog (dec_prog (sx_nth i 1))) (dec_sched (sx_nth i 2))) =?
+   total_calls (dec_prog (sx_nth i 1)))%nat.
+Definition wf (i : sx) : bool :=
+  if kind i =? 1 then wf_comb i
+  else if kind i =? 2 then
+    (if wkind i =? 0 then wf_stdlog i
+     else if wkind i =? 1 then true
+     else if wkind i =? 2 then true
+     else 0 <=? sx_z (sx_nth i 2))
+  else wf_lock i.
